@@ -83,6 +83,15 @@ def run(repo, tier):
                 if ev[0] == 'value' and ev[1][0] == 'res' and strip(ev[1])[0] == 'mcall' and strip(ev[1])[2].startswith('read'):
                     raw = ev[1]
         sym = D.Sym(consts, [], raw)
+        if raw is not None and ('whole', repr(strip(raw))) not in seen:
+            seen.add(('whole', repr(strip(raw))))
+            whole, why = D.whole_file_read(raw)
+            if whole is None:
+                raise AnalysisError('cli_main: ' + why)
+            node_r = next((ev[-1] for ev in p.events if ev[0] == 'value' and ev[1] == raw), fn)
+            rep.check(whole, 'R19.1.whole-file', 'the length that is guarded is the length of the whole file',
+                      lambda why=why, node_r=node_r: Finding('R19.1.whole-file', 'cli_main', node_r, why + ': an oversize firmware file is not refused', file=FILE,
+                                                             line=getattr(node_r, 'lineno', fn.lineno)))
         # (1) guard
         guard = None
         for kind, idx, node, payload in evs:
